@@ -8,6 +8,10 @@ from hypothesis import HealthCheck, Phase, given, settings
 from .evidence import HarnessError, Violation
 
 
+class _StopShrinking(BaseException):
+    pass
+
+
 def search(strategy, test_fn, rec, *, seed, max_examples, shrink_budget_s=20.0, rounds=4,
            skip_signatures=(), suppress_filter=False):
     """Run test_fn(case) on generated cases.
@@ -31,9 +35,9 @@ def search(strategy, test_fn, rec, *, seed, max_examples, shrink_budget_s=20.0, 
         def wrapped(case):
             key = None
             if state["t_first"] is not None and time.time() - state["t_first"] > shrink_budget_s:
-                key = json.dumps(case, sort_keys=True, default=repr)
-                if key != state["best_key"]:
-                    return
+                # shrink budget used up: abandon the Hypothesis run (a BaseException passes through its engine);
+                # the smallest really-failing case recorded so far is reported
+                raise _StopShrinking()
             state["n"] += 1
             try:
                 test_fn(case)
@@ -64,7 +68,7 @@ def search(strategy, test_fn, rec, *, seed, max_examples, shrink_budget_s=20.0, 
         )
         try:
             runner()
-        except (Violation, hypothesis.errors.Flaky, hypothesis.errors.FlakyFailure) as e:
+        except (Violation, _StopShrinking, hypothesis.errors.Flaky, hypothesis.errors.FlakyFailure) as e:
             # Flaky can only come from the shrink budget (cases other than the best one stop failing
             # once it is used up); the recorded best case failed for real, so it is reported as is.
             if state["v"] is None:
